@@ -25,8 +25,8 @@ const clone = (v) => (typeof v === 'function' || v === null || typeof v !== 'obj
 const key = (v) => JSON.stringify(v, (k, x) => (x === undefined ? '__u__' : typeof x === 'function' ? '__f__' : Number.isNaN(x) ? '__nan__' : x))
 
 const INITIAL = [
-  { x: 'X', y: 'Y', c: 1, d: 0, d2: 1, a: { b: 'B' }, n: 't', b: 'BB', list: [{ id: 1, v: 'p' }, { id: 2, v: 'q' }, { id: 3, v: 'r' }] },
-  { x: undefined, y: null, c: 0, d: 1, d2: 0, a: undefined, n: 'u', b: undefined, list: [] },
+  { x: 'X', y: 'Y', c: 1, d: 0, d2: 1, a: { b: 'B' }, n: 't', b: 'BB', list: [{ id: 1, v: 'p' }, { id: 2, v: 'q' }, { id: 3, v: 'r' }, { id: 4, v: 's' }, { id: 5, v: 'u' }], obj: { a: { id: 1, v: 'p' }, b: { id: 2, v: 'q' }, c: { id: 3, v: 'r' } } },
+  { x: undefined, y: null, c: 0, d: 1, d2: 0, a: undefined, n: 'u', b: undefined, list: [], obj: {} },
 ]
 const ALT = {
   x: ['X', 'X2', undefined, null, 0, '', 7],
@@ -37,7 +37,8 @@ const ALT = {
   n: ['t', 'u', 'b', undefined, ''],
   b: ['BB', 'B3', undefined],
   a: [{ b: 'B' }, { b: 'B2' }, undefined, null, { b: undefined }],
-  list: [[{ id: 1, v: 'p' }, { id: 2, v: 'q' }, { id: 3, v: 'r' }], [], [{ id: 3, v: 'r' }, { id: 1, v: 'p' }], [1, 2], ['', 0], { k: 1, m: 2 }, 'ab', 2, undefined, null, [[1, 2], 'xy']],
+  obj: [{ a: { id: 1, v: 'p' }, b: { id: 2, v: 'q' }, c: { id: 3, v: 'r' } }, {}, { b: { id: 2, v: 'q' }, a: { id: 1, v: 'p' } }, { a: { id: 1, v: 'p' }, z: { id: 9, v: 'new' }, b: { id: 2, v: 'q' } }, undefined, { a: { id: 2, v: 's' }, b: { id: 2, v: 't' } }],
+  list: [[{ id: 1, v: 'p' }, { id: 2, v: 'q' }, { id: 3, v: 'r' }, { id: 4, v: 's' }, { id: 5, v: 'u' }], [{ id: 1, v: 'p' }, { id: 2, v: 'q' }, { id: 3, v: 'r' }], [], [{ id: 3, v: 'r' }, { id: 1, v: 'p' }], [1, 2], ['', 0], { k: 1, m: 2 }, 'ab', 2, undefined, null, [[1, 2], 'xy']],
 }
 
 function setPath(data, path, value) {
@@ -53,7 +54,7 @@ function setPath(data, path, value) {
 function getPath(data, path) { let cur = data; for (const p of path) { if (cur === null || cur === undefined) return undefined; cur = cur[p] } return cur }
 
 /** transitions enabled in `data` for a template using `names`; each: {label, ops:[{path,value}|{path,splice:[index,del,inserts]}]} */
-function transitions(data, names, reduced) {
+function transitions(data, names, reduced, keyed) {
   const out = []
   const used = [...names].filter((n) => ALT[n])
   for (const n of used) {
@@ -74,6 +75,17 @@ function transitions(data, names, reduced) {
       out.push({ label: `set ${used[i]} and ${used[j]}`, ops: [{ path: [used[i]], value: vi }, { path: [used[j]], value: vj }] })
     }
     if (used.length >= 3) out.push({ label: 'set every field', ops: used.map((n) => ({ path: [n], value: ALT[n].find((v) => key(v) !== key(data[n])) })) })
+  }
+  // an object used as a list: exact paths below a field of the object, a key change, an item replacement
+  const O = data.obj
+  if (names.has('obj') && O && typeof O === 'object' && Object.keys(O).length) {
+    const ks = Object.keys(O)
+    const k1 = ks[ks.length - 1]
+    out.push({ label: 'obj: change a field of the last item', ops: [{ path: ['obj', k1, 'v'], value: 'chg' }] })
+    out.push({ label: 'obj: change the key field of the last item', ops: [{ path: ['obj', k1, 'id'], value: 8 }] })
+    out.push({ label: 'obj: replace the first item', ops: [{ path: ['obj', ks[0]], value: { id: 7, v: 'rep' } }] })
+    out.push({ label: 'obj: add a field', ops: [{ path: ['obj', 'zz'], value: { id: 6, v: 'add' } }] })
+    if (ks.length >= 2) out.push({ label: 'obj: change two items', ops: [{ path: ['obj', ks[0], 'v'], value: 'c0' }, { path: ['obj', k1, 'v'], value: 'c1' }] })
   }
   const L = data.list
   if (names.has('list') && Array.isArray(L)) {
@@ -97,10 +109,18 @@ function transitions(data, names, reduced) {
       out.push({ label: 'duplicate key', ops: [{ path: ['list', 1], value: clone(L[0]) }] })
       out.push({ label: 'swap by two item writes', ops: [{ path: ['list', 0], value: clone(L[1]) }, { path: ['list', 1], value: clone(L[0]) }] })
     }
+    // every permutation of a five-item list by whole-list replacement (the keyed diff keeps a longest common subsequence in place)
+    if (!reduced && keyed && L.length === 5) {
+      const perm = (arr) => (arr.length <= 1 ? [arr] : arr.flatMap((x, i) => perm([...arr.slice(0, i), ...arr.slice(i + 1)]).map((r) => [x, ...r])))
+      for (const p of perm([0, 1, 2, 3, 4])) {
+        if (p.every((x, i) => x === i)) continue
+        out.push({ label: `permute to ${p.join('')}`, ops: [{ path: ['list'], value: p.map((i) => L[i]) }] })
+      }
+    }
     // every list operation together with a change of each other field in the same update (the list diff and the bindings
     // inside the items that read data outside the item are served by one pass)
     if (!reduced) {
-      const listOps = out.filter((t) => t.ops.some((op) => op.path[0] === 'list') && t.ops.length <= 2 && !t.label.startsWith('set '))
+      const listOps = out.filter((t) => t.ops.some((op) => op.path[0] === 'list') && t.ops.length <= 2 && !t.label.startsWith('set ') && !t.label.startsWith('permute '))
       for (const n of used) {
         if (n === 'list') continue
         const v = ALT[n].find((x) => key(x) !== key(data[n]))
@@ -190,7 +210,7 @@ function exploreCase(cs, bundle, rep, depth2) {
       { engine: MODE.toLowerCase(), case: cs.name, initial: init, history: history.map((t) => t.ops), labels })
   }
   INITIAL.forEach((init, ii) => {
-    const t1s = transitions(init, names, false)
+    const t1s = transitions(init, names, false, /wx:key/.test(cs.__src || ''))
     for (const t1 of t1s) {
       const d1 = applyToData(init, t1)
       let comp
@@ -233,7 +253,7 @@ function exploreCase(cs, bundle, rep, depth2) {
     INITIAL.forEach((init, ii) => {
       for (const t1 of transitions(init, names, false)) {
         if (failed) return
-        if (t1.label.includes(' + ')) continue
+        if (t1.label.includes(' + ') || t1.label.startsWith('permute ')) continue
         const d1 = applyToData(init, t1)
         const want = fresh(d1)
         const touched = [...new Set(t1.ops.map((op) => op.path[0]))]
